@@ -136,6 +136,8 @@ def make_mesh(refdom_name, kind, rng, reorder=True, renum=True, min_quality=0.0)
     import skfem
     if kind == 'adaptive':
         return _adaptive_mesh(refdom_name, rng, reorder, renum, min_quality)
+    if kind in ('novalidate', 'unsorted'):
+        return _special_simplex_mesh(refdom_name, kind, rng, min_quality)
     base = 'jiggled' if kind == 'curved' else kind
     p, t = base_mesh(refdom_name, base, rng, min_quality=min_quality)
     if renum:
@@ -153,6 +155,41 @@ def make_mesh(refdom_name, kind, rng, reorder=True, renum=True, min_quality=0.0)
             m = type(M)(dl, M.t)
     return m, {'refdom': refdom_name, 'kind': kind, 'p': np.asarray(p).tolist(), 't': np.asarray(t).tolist(),
                'mesh_class': type(m).__name__}
+
+
+def _special_simplex_mesh(refdom_name, kind, rng, min_quality):
+    """'novalidate': the default constructor with validate=False (a public flag that must not influence the per-cell
+    sorting) from randomly ordered connectivity, sort_t left at the class default, optionally refined;
+    'unsorted': per-cell sorting explicitly OFF (MeshTri(p, t, sort_t=False) / m.oriented()) and meshes derived from it —
+    inside the claim for elements with at most one DOF per facet / edge"""
+    import skfem
+    base = ['delaunay', 'structured', 'jiggled'][int(rng.integers(0, 3))]
+    p, t = base_mesh(refdom_name, base, rng, min_quality=min_quality)
+    p, t = renumber(p, t, rng)
+    t = local_reorder(t, refdom_name, rng)
+    cls = getattr(skfem, MESH1[refdom_name])
+    how = []
+    with warnings.catch_warnings():
+        warnings.simplefilter('ignore')
+        if kind == 'novalidate':
+            m = cls(p, t, validate=False)
+            how.append('validate=False')
+        else:
+            if rng.random() < 0.5:
+                m = cls(p, t, sort_t=False)
+                how.append('sort_t=False')
+            else:
+                m = cls(p, t).oriented()
+                how.append('oriented()')
+        r = rng.random()
+        if r < 0.3 and m.t.shape[1] <= 30:
+            m = m.refined()
+            how.append('refined()')
+        elif r < 0.6:
+            m, op = _tagging_op(m, rng)
+            how.append(op)
+    return m, {'refdom': refdom_name, 'kind': kind, 'base': base, 'p': np.asarray(p).tolist(), 't': np.asarray(t).tolist(),
+               'built_by': how, 'mesh_class': type(m).__name__}
 
 
 LAST_PARENT = {}      # the parent mesh of the last 'adaptive' mesh and the checksum of its arrays before it was derived from
@@ -246,7 +283,9 @@ def check_sorted(mesh, desc, report):
     if not ok:
         bad = np.nonzero(~np.all(np.diff(mesh.t, axis=0) > 0, axis=0))[0]
         report('mesh=MeshTri1:library-produced-mesh-unsorted',
-               f'MeshTri1 produced by {desc.get("before_refinement")} + refined({desc.get("marked")}) + {desc.get("derived_by")} has sort_t={getattr(mesh, "sort_t", None)} and '
+               f'MeshTri1 produced by ' + (f'{desc["built_by"]}' if 'built_by' in desc else
+                                           f'{desc.get("before_refinement")} + refined({desc.get("marked")}) + {desc.get("derived_by")}')
+               + f' has sort_t={getattr(mesh, "sort_t", None)} and '
                f'{len(bad)} cells whose vertices are not ascending (first: {mesh.t[:, bad[:1]].T.tolist()})',
                dict(desc, unsorted_cells=bad[:10].tolist()))
     return ok
@@ -260,15 +299,16 @@ def claims():
     'midpoint' / 'morley' / 'plate15' (non-conforming: defining functionals only)"""
     import skfem.element as E
     C = {}
-    allk = ('delaunay', 'structured', 'jiggled', 'curved', 'adaptive')
-    gk = ('delaunay', 'structured', 'jiggled', 'adaptive')
+    allk = ('delaunay', 'structured', 'jiggled', 'curved', 'adaptive', 'novalidate')
+    gk = ('delaunay', 'structured', 'jiggled', 'adaptive', 'novalidate')
+    anyorder = allk + ('unsorted',)      # at most one DOF per facet / edge: conforming for ANY vertex order
     quadk = ('structured', 'jiggled', 'curved')
 
     def add(label, f, kind, kinds, **opt):
         C[label] = (f, kind, kinds, opt)
     for n in ('ElementTriP1', 'ElementTriP2', 'ElementTriP3', 'ElementTriP4', 'ElementTriP1B', 'ElementTriP2B',
               'ElementTetP1', 'ElementTetP2', 'ElementTetMini', 'ElementTetCCR'):
-        add(n, getattr(E, n), 'value', allk)
+        add(n, getattr(E, n), 'value', allk if n in ('ElementTriP3', 'ElementTriP4') else anyorder)
     for n in ('ElementQuad1', 'ElementQuad2', 'ElementQuadS2', 'ElementHex1', 'ElementHex2', 'ElementHexS2'):
         add(n, getattr(E, n), 'value', quadk)
     for n in ('ElementLineP1', 'ElementLineP2', 'ElementLineMini'):
@@ -278,11 +318,11 @@ def claims():
         add(f'ElementLinePp({p})', (lambda p=p: E.ElementLinePp(p)), 'value', ('structured',))
         add(f'ElementQuadP({p})', (lambda p=p: E.ElementQuadP(p)), 'value', quadk)
     for n in ('ElementTriRT1', 'ElementTriRT2', 'ElementTriBDM1', 'ElementTetRT1'):
-        add(n, getattr(E, n), 'normal', allk)
+        add(n, getattr(E, n), 'normal', anyorder if n in ('ElementTriRT1', 'ElementTetRT1') else allk)
     for n in ('ElementQuadRT1', 'ElementHexRT1'):
         add(n, getattr(E, n), 'normal', quadk)
     for n in ('ElementTriN1', 'ElementTriN2', 'ElementTriN3', 'ElementTetN1'):
-        add(n, getattr(E, n), 'tangential', allk)
+        add(n, getattr(E, n), 'tangential', anyorder if n in ('ElementTriN1', 'ElementTetN1') else allk)
     add('ElementQuadN1', E.ElementQuadN1, 'tangential', quadk)
     for n in ('ElementTriHHJ0', 'ElementTriHHJ1'):
         add(n, getattr(E, n), 'normal-normal', gk)
